@@ -301,9 +301,16 @@ pub fn script_text(cmds: &[Cmd], aliases: &[u8], kept: usize, observe: bool, ter
 
 /// The script through `--command` only (for checks that account for every byte of standard input).
 pub fn run_lace_arg(p: &Prog, script: &str, input: &[u8], fuel: u64) -> Session {
+    run_lace_mode(p, script, input, fuel, true)
+}
+
+/// As `run_lace_arg`, in minimal or in normal (non-minimal) output mode. Checks whose oracle reads
+/// the machine through hook H1 rather than through the transcript use both: the normal mode runs
+/// code (source-context views, tables, notes) that the minimal mode skips.
+pub fn run_lace_mode(p: &Prog, script: &str, input: &[u8], fuel: u64, minimal: bool) -> Session {
     lacebox::run_session(
         Load::Source { text: p.text.clone(), debugger: Some(Some(script.to_string())) },
-        RunSpec { stack: p.built.stack, minimal: true, fuel, input: input.to_vec() },
+        RunSpec { stack: p.built.stack, minimal, fuel, input: input.to_vec() },
     )
 }
 
